@@ -5,7 +5,7 @@
    belongs to it (include_closing_item) or to the next one; the reference is the first item's timestamp
    or that of the preceding closing item. *)
 From Coq Require Import List ZArith Bool.
-From RxVerif Require Import Mux.Val Mux.Sim Mux.SimExt Mux.Seg Mux.Ops Mux.Syntax Mux.LocalSemProofs Mux.SegSpecProofs
+From RxVerif Require Import Mux.Val Mux.Sim Mux.SimExt Mux.Seg Mux.Ops Mux.Syntax Mux.LocalSemProofs Mux.SegSpecProofs Mux.AffineProofs
   Mux.HeadsSpecProofs Mux.MasterProofs.
 Import ListNotations.
 
@@ -58,6 +58,15 @@ Theorem C07_expired_iff : forall a i start last new,
   (exists t, a = Some t /\ (start + t <= new)%Z) \/ (exists t, i = Some t /\ (last + t <= new)%Z).
 Proof. exact expired_iff. Qed.
 Print Assumptions C07_expired_iff.
+
+(* the decision is invariant under an affine change of the time scale (timestamps base + ts * u, timeouts t * u, u > 0):
+   a run with datetime / timedelta values decides as the run with integer timestamps that the model evaluates *)
+Theorem C07_decision_invariant_under_affine_time : forall (u base : Z) (a i : option Z) (start last new : Z), (0 < u)%Z ->
+  expired (option_map (fun t => t * u)%Z a) (option_map (fun t => t * u)%Z i)
+          (base + start * u)%Z (base + last * u)%Z (base + new * u)%Z
+  = expired a i start last new.
+Proof. exact expired_affine. Qed.
+Print Assumptions C07_decision_invariant_under_affine_time.
 
 Example C07_example :
   sessions FId (Some 5%Z) (Some 3%Z) None true (map (fun z => It (VInt z)) [1; 2; 3; 4; 5; 6; 10; 12]%Z)
